@@ -8,9 +8,6 @@ Open Scope Z_scope.
 
 (* ---------- the standard (kubelet) conversions, with literal numbers ---------- *)
 
-Definition std_shares (m : Z) : Z := if m <=? 0 then 2 else Z.min 262144 (Z.max 2 (m * 1024 / 1000)).
-Definition std_quota (m : Z) : Z := if m <=? 0 then -1 else Z.max 1000 (m * 100).
-
 Lemma shares_std m : MilliCPUToShares m = std_shares m.
 Proof.
   unfold MilliCPUToShares, std_shares, CPUSharesMinValue, CPUSharesMaxValue, CPUShareUnitValue.
